@@ -239,7 +239,7 @@ func main() {
 
 	maxLen := 10
 	if r.Thorough() {
-		maxLen = 12
+		maxLen = 13
 	}
 	alphas := []struct {
 		name string
